@@ -66,7 +66,7 @@ pub fn run(args: &Args) -> Report {
         }
     };
     let mut rng = Rng::new(args.seed);
-    let ndocs = if args.thorough { 1500 } else { 60 };
+    let ndocs = if args.thorough { 1500 } else { 180 };
     let mut cases: Vec<(String, String, String, bool)> = vec![]; // (orig, mutated, unknown tag, payload name)
     if let Some(input) = &args.replay {
         let mut it = input.split_whitespace();
